@@ -1,5 +1,5 @@
 import CssVerif.Lemmas.SheetSpecSheet
-import CssVerif.Gen.C04Margins
+import CssVerif.Gen.C02Margins
 /-!
 # C02: an example spelled sheet with every rule kind, and the proof that it is well formed
 (used by the non-vacuity examples of Props/C02.lean)
@@ -16,7 +16,7 @@ theorem core_of (c : List Tok) (h1 : ∃ t ts, c = t :: ts ∧ isS t = false)
 
 namespace Ex2
 open CssVerif.Struct.Ex
-def M := CssVerif.Gen.C04.margins
+def M := CssVerif.Gen.C02.margins
 def O : Oracle := withAtRules Ex.yes
 def sp1 : Ws := ⟨.space, []⟩
 def g : Gap := [.ws sp1]
